@@ -124,7 +124,9 @@ def check_case(ctx, case):
                     elif 'exc' in rr:
                         probs.append(('disagree', 'model-raises-reweight', rr['exc']))
                     else:
-                        d2 = compare_q(r, decode_obs(rr['obs']), rtol=1e-9)
+                        m_ = decode_obs(rr['obs'])
+                        m_.mag = dict(q.mag)
+                        d2 = compare_q(r, m_, rtol=1e-9)
                         if d2:
                             probs.append(('disagree', 'model-vs-impl-reweight', d2[:3]))
         elif k == 'reweight_bad':
@@ -166,7 +168,9 @@ def check_case(ctx, case):
                 if ('exc' in rr) != (exc is not None):
                     probs.append(('disagree', 'correlate-verdict', 'impl %s model %s' % ('raises' if exc else 'ok', rr.get('exc', 'ok'))))
                 elif 'obs' in rr and r is not None:
-                    d2 = compare_q(r, decode_obs(rr['obs']), rtol=1e-10)
+                    m_ = decode_obs(rr['obs'])
+                    m_.mag = dict(q.mag)
+                    d2 = compare_q(r, m_, rtol=1e-10)
                     if d2:
                         probs.append(('disagree', 'model-vs-impl-correlate', d2[:3]))
         elif k == 'merge':
@@ -197,7 +201,9 @@ def check_case(ctx, case):
                 if ('exc' in rr) != (exc is not None):
                     probs.append(('disagree', 'merge-verdict', 'impl %s model %s' % ('raises' if exc else 'ok', rr.get('exc', 'ok'))))
                 elif 'obs' in rr and r is not None:
-                    d2 = compare_q(r, decode_obs(rr['obs']), rtol=1e-10)
+                    m_ = decode_obs(rr['obs'])
+                    m_.mag = dict(q.mag)
+                    d2 = compare_q(r, m_, rtol=1e-10)
                     if d2:
                         probs.append(('disagree', 'model-vs-impl-merge', d2[:3]))
     return probs
